@@ -8,3 +8,4 @@ pub mod doubles;
 pub mod props;
 pub mod real;
 pub mod chk;
+pub mod fuzzing;
